@@ -6,6 +6,8 @@ layouts, go through the real insert-accfg-op, dart-scheduler, [set-memory-layout
 set_stride_patterns). Reference: for every temporal step of the schedule (outer dims, last fastest) the set of bytes holding the elements the schedule assigns
 to that step under the operand's layout (independent evaluator). Implementation: the byte sets the streamer touches per temporal step of its final StridePattern
 (machines/stream.py, 8-byte ports). The two sequences must be equal step by step for every operand; disabled streamers touch nothing.
+The programs then continue through the real convert-linalg-to-accfg: the bound / stride register values written for each streamer must generate the
+address sequence of that stride pattern (padded; zero-stride reuse dimensions fetched once).
 """
 from __future__ import annotations
 
@@ -326,6 +328,8 @@ def evaluate(case) -> CaseResult:
                     b.add(ta + so + k)
             seq.append(frozenset(b))
         impl.setdefault(o, []).append((si, seq))
+    patterns = [([x.data for x in pat.upper_bounds.data], [x.data for x in pat.temporal_strides.data], [x.data for x in pat.spatial_strides.data]) for pat in region.stride_patterns.data]
+    zero_ptr = [getattr(ptr.owner, "name", None) != "memref.extract_aligned_pointer_as_index" for ptr in region.operands]
     r.states = sum(len(s) for s in ref_streams)
     r.nontrivial = any(len(s) >= 2 for s in ref_streams)
     r.obs = (case, tuple(pats_text))
@@ -349,7 +353,70 @@ def evaluate(case) -> CaseResult:
                 f"operand {o} (streamer {si}: {pats_text[si]}): temporal step {i} touches bytes {gx}... ({len(got[i]) if i < len(got) else 0} bytes) but the schedule assigns bytes {wx}... "
                 f"({len(seq[i]) if i < len(seq) else 0} bytes); streamer steps {len(got)}, schedule steps {len(seq)}; schedule bounds {bounds}",
             )
+    if not r.violations:
+        csr_level(r, mod, acc_obj, streamers, patterns, zero_ptr, key, case_j)
     return r
+
+
+def csr_level(r, mod, acc_obj, streamers, patterns, zero_ptr, key, case_j):
+    """the same streams once more at the register level: the bound / stride registers the real convert-linalg-to-accfg writes for each streamer must generate
+    the address sequence of the final stride pattern (padded to the hardware dimensionality; a reuse dimension with stride 0 is fetched once)"""
+    from machines.ir import Interp, InterpError, UseBeforeDef, find_func
+
+    try:
+        common.run_pipeline(mod, "convert-linalg-to-accfg")
+    except Exception as e:
+        r.count("csr_level_rejected:" + type(e).__name__)
+        return
+    setup = next((op for op in mod.walk() if op.name == "accfg.setup"), None)
+    if setup is None:
+        r.count("csr_level_rejected:no-setup")
+        return
+    names = [p.data for p in setup.param_names]
+    bases = {}
+
+    def h_ptr(it, op):
+        return [bases.setdefault(op.operands[0], 0x100000 * (len(bases) + 1))]
+
+    def h_view(it, op):
+        return [None]
+
+    h = {
+        "memref.extract_aligned_pointer_as_index": h_ptr, "snax.layout_cast": h_view, "memref.subview": h_view, "memref.cast": h_view, "accfg.setup": lambda it, op: [("state",)], "accfg.launch": lambda it, op: [("tok",)],
+        "accfg.await": lambda it, op: [], "snax_stream.streaming_region": lambda it, op: [], "func.call": lambda it, op: [0 for _ in op.results],
+    }
+    it = Interp(handlers=h, budget=50000)
+    f = find_func(mod, "f")
+    try:
+        it.run_func(f, [None] * len(f.body.block.args))
+        got = dict(zip(names, [it.get(v) for v in setup.values]))
+    except (UseBeforeDef, InterpError, TypeError) as e:
+        r.count("csr_level_rejected:eval:" + type(e).__name__)
+        return
+    r.count("csr_level_checked")
+    for name, st, (ub, ts, ss), zp in zip(acc_obj.streamer_names, streamers, patterns, zero_ptr):
+        if zp or any(u == 0 for u in ub):
+            continue
+        T, S = len(st.temporal_dims), len(st.spatial_dims)
+        try:
+            hb = [got[f"{name}_bound_{i}"] for i in range(T)]
+            ht = [got[f"{name}_tstride_{i}"] for i in range(T)]
+            hs = [got[f"{name}_sstride_{j}"] for j in range(S)]
+        except KeyError as e:
+            r.violate(key + f"|csr-missing-{name}", case_j, f"no register value for {e} of streamer {name}")
+            continue
+        eb = [1 if (str(fl) == "r" and t == 0) else u for u, t, fl in zip(ub, ts, st.temporal_dims)] + [1] * (T - len(ub))
+        et = list(ts) + [0] * (T - len(ts))
+        want = SM.temporal_addresses(eb, et)
+        have = SM.temporal_addresses(hb, ht)
+        r.transitions += len(have)
+        if want != have or list(hs) != list(ss)[:S] + [0] * (S - len(ss)):
+            i = next((k for k, (x, y) in enumerate(zip(have, want)) if x != y), min(len(have), len(want)))
+            r.violate(
+                key + f"|csr-{name}", case_j,
+                f"streamer {name}: registers bounds={hb} tstrides={ht} sstrides={hs} generate {len(have)} temporal steps, the stride pattern ub={ub} ts={ts} ss={ss} "
+                f"means {len(want)} steps (first difference at step {i}: {have[i] if i < len(have) else None} vs {want[i] if i < len(want) else None})",
+            )
 
 
 def _t(x):
